@@ -27,6 +27,7 @@ This module is also imported by c12_dna_views.py (model, builders, oracles).
 """
 import itertools
 import random as _random
+import time
 
 import pyglove as pg
 from pyvc.bounded import Recorder, rng
@@ -719,30 +720,6 @@ def _self_check(m, mem):
   return keys
 
 
-def _flags_class(m):
-  """Coarse input class of a spec for case ids."""
-  def walk(x, acc, d):
-    if x[0] == 'space':
-      if len(x[1]) >= 2:
-        acc.add('multi-elem' if d else 'multi-elem-root')
-      for e in x[1]:
-        walk(e, acc, d)
-    elif x[0] == 'choices':
-      if x[1] > 1:
-        acc.add('multi[%s%s]' % ('D' if x[3] else 'd', 'S' if x[4] else 's'))
-      else:
-        acc.add('single')
-      if any(c[1] for c in x[2]):
-        acc.add('cond')
-      for c in x[2]:
-        walk(c, acc, d + 1)
-    else:
-      acc.add(x[0])
-  acc = set()
-  walk(m, acc, 0)
-  return '+'.join(sorted(acc)) or 'constant'
-
-
 def _multi_class(m):
   """Class by the flags of the multi-choices present (short)."""
   acc = set()
@@ -769,11 +746,12 @@ def _multi_class(m):
 def drv_space_size(tier, seed):
   """space_size == number of members, over an exhaustive family of specs."""
   if tier == 'quick':
-    w_all, w_rand, nmax, budget = 3, 5, 3, 60
+    w_all, w_rand, nmax, budget = 3, 5, 3, 120
   else:
     w_all, w_rand, nmax, budget = 4, 5, 4, 800
   rec = Recorder(PROP, 'space_size equals the brute-force member count',
-                 scope=f'every Choices spec of weight<={w_all} (weight = number '
+                 scope=f'every Choices spec of weight<={w_all} (quick: at most 2 per '
+                       f'(k, flags, candidate-size tuple) signature; weight = number '
                        f'of candidate slots in the whole tree; n<={nmax}, k<=3, '
                        f'every distinct/sorted combination at every level, '
                        f'candidate sub-spaces with 1 or 2 elements, depth<=3), '
@@ -787,9 +765,22 @@ def drv_space_size(tier, seed):
   rest = [m for m in gen_dps(w_rand, nmax, 3, 3)
           if m not in seen and count_members(m) <= 5000]
   rest = r.sample(rest, min(budget, len(rest)))
-  import time
+  if tier == 'quick':
+    # keep at most 2 specs per (k, flags, candidate sizes) signature: the
+    # recurrence only sees the sizes of the candidate sub-spaces (the
+    # sub-spaces themselves are roots of smaller specs of the same family).
+    seen_sig = {}
+    kept = []
+    for m in head:
+      if m[0] == 'choices':
+        sig = (m[1], m[3], m[4], tuple(count_members(c) for c in m[2]))
+        seen_sig[sig] = seen_sig.get(sig, 0) + 1
+        if seen_sig[sig] > 2:
+          continue
+      kept.append(m)
+    head = kept
   t0 = time.time()
-  limit = 38 if tier == 'quick' else 530
+  limit = 30 if tier == 'quick' else 530
   for i, m in enumerate(head + rest):
     if i >= len(head) and time.time() - t0 > limit:
       break          # only the seeded sample is ever cut short
@@ -818,9 +809,9 @@ def _iteration_specs(tier, r):
   if tier == 'quick':
     specs += leaf_family(4, 3)
     specs += handpicked_roots()
-    specs += conditional_family([2], [1, 2, 3], [C, S2, S3], 40)
-    specs += conditional_family([3], [2], [C, S2], 60, r, 12)
-    specs += conditional_family([2], [2], [C, SM, S22, SN], 60, r, 10)
+    specs += conditional_family([2], [1, 2, 3], [C, S2, S3], 40, r, 30)
+    specs += conditional_family([3], [2], [C, S2], 60, r, 10)
+    specs += conditional_family([2], [2], [C, SM, S22, SN], 60, r, 8)
   else:
     specs += leaf_family(5, 4)
     specs += handpicked_roots()
@@ -840,12 +831,13 @@ def drv_iteration(tier, seed):
       scope=('leaf choices n<=4,k<=3 (thorough 5,4) x every distinct/sorted; '
              'conditional choices n<=3 with candidate sub-spaces of sizes '
              '1,2,3 and shapes (inlined multi-choice, 2-element space, nested)'
-             '; multi-element roots; depth<=3; full iteration when size<='
+             '; multi-element roots; depth<=3; 5 specs whose custom points are '
+             'enumerated by a user next_dna_fn (quick: seeded samples of the '
+             'conditional families); full iteration when size<='
              f'{full_cap}, otherwise successor checks at first/last/boundary '
              'and seeded random members'))
   r = rng(seed, 'c11.iter')
   budget_s = 36 if tier == 'quick' else 520
-  import time
   t0 = time.time()
   for m in _iteration_specs(tier, r):
     if time.time() - t0 > budget_s:
@@ -1064,10 +1056,10 @@ def drv_membership(tier, seed):
              'seeded sample beyond), every one-step corruption of sampled '
              'members (value -> negative/out-of-range/other type/None, '
              'dropped/extra/swapped/duplicated children, child under leaf, '
-             'value on container) and all trees with <=3 nodes over '
-             '{-1,0,1,None} for tiny specs'))
+             'value on container), all trees with <=3 nodes over '
+             '{-1,0,1,None} for tiny specs, and DNA.from_numbers on member '
+             'numbers and one-step corrupted numbers'))
   r = rng(seed, 'c11.member')
-  import time
   t0 = time.time()
   budget_s = 38 if tier == 'quick' else 540
   # fixed probes first, so that the kept witness of an id is the plainest one
@@ -1174,21 +1166,16 @@ def _all_choices(m):
       yield from _all_choices(c)
 
 
-def _float_member(m, node):
-  return accepts(m, node)
-
-
 def drv_random_and_sweeping(tier, seed):
   """random_dna returns members; Sweeping proposes the iteration sequence."""
   rec = Recorder(
       PROP, 'random_dna returns members; Sweeping == iteration sequence',
       scope=('random: leaf family n<=4,k<=3, hand-picked and float/custom '
-             'specs, N seeded draws each through spec.random_dna / '
+             'specs, 8 (thorough 40) seeded draws each through spec.random_dna / '
              'pg.random_dna / pg.geno.Random, with and without previous_dna; '
-             'sweeping: specs of size<=24 through propose(), iteration of the '
+             'sweeping: specs of size<=12 (thorough 36) through propose(), iteration of the '
              'generator and recover()+propose()'))
   r = rng(seed, 'c11.random')
-  import time
   t0 = time.time()
   budget_s = 38 if tier == 'quick' else 500
   draws = 8 if tier == 'quick' else 40
